@@ -230,3 +230,28 @@ def d6(ctx):
 
 def r_is(v, name):
     return tag(v) == "variant" and v[3] and tag(v[3][0]) == "variant" and v[3][0][2] == name
+
+
+@rule("C20-D7", "C20", 3, "discarded() never decreases: an addition to the counter must not wrap around - it has to saturate or be checked. The counter is not bounded by the "
+      "capacity (every recycled block adds its node overhead again, every discard_freelist the data sizes again), so a u32 wrap needs only time")
+def d7(ctx):
+    n = 0
+    for fl in FLAVOURS:
+        pats = [r"^<%s::Arena as allocator::Allocator>::(increase_discarded|dealloc)$" % fl,
+                r"^%s::Arena::(discard_freelist_in|optimistic_dealloc|pessimistic_dealloc|try_new_segment|alloc_slow_path_optimistic|alloc_slow_path_pessimistic)$" % fl]
+        for pat in pats:
+            for b in ctx.facts.find(pat):
+                ev, res = ctx.eval(b, no_inline=NOINLINE + (r"::increase_discarded$",))
+                for e in discarded_writes(res, fl):
+                    if e["chain"]:
+                        continue
+                    n += 1
+                    if fl == "sync":
+                        ok = e.get("atomic") not in ("fetch_add", "fetch_sub", "store", "swap")
+                        how = "%s wraps modulo 2^32" % e.get("atomic")
+                    else:
+                        raw = [a for a in res.log if a["kind"] == "arith" and a["op"] == "Add" and not a["chain"] and a["seq"] < e["seq"] and term_eq(add(a["a"], a["b"]), e["value"])]
+                        ok = not raw
+                        how = "`discarded += n` is an unchecked u32 addition (panic with overflow checks, wrap-around without)"
+                    yield Ob(key_of("C20-D7", b.path, "wrapping-add"), ok, "%s: %s" % (b.name, "the addition saturates / is checked" if ok else how), ctx.loc(e))
+    yield Ob(key_of("C20-D7", "crate", "sites"), n >= 3, "%d additions to `discarded` examined" % n, None)
